@@ -126,6 +126,19 @@ class Traced:
         return out
 
 
+def _app_eval(name, args, mode, record):
+    tr = Traced.get(name)
+    env = dict(zip(tr.params, args))
+    idx, vals, _ = tr.eval_paths(env, mode, record)
+    if isinstance(vals, tuple):
+        raise EvalError(vals[1])
+    return vals[0]
+
+
+from . import tracer as _tracer
+_tracer.APP_EVAL = _app_eval
+
+
 def run_real(tr, env):
     try:
         r = specs.run_concrete(tr.f, dict(env))
